@@ -359,6 +359,11 @@ def run_kani(harness_names, timeout_s=1500, jobs=None, playback=False, extra_unw
             res.reason = str(e)
             return res
         os.makedirs(CACHE, exist_ok=True)
+        # one Kani build at a time per target directory: concurrent `./check` runs (other properties, other trees via
+        # VP_REPO) share the dependency cache, and two cargo-kani sessions in one target directory lose each other's output
+        import fcntl
+        lockf = open(KANI_TARGET + ".lock", "w")
+        fcntl.flock(lockf, fcntl.LOCK_EX)
         for crate, hs in by_crate.items():
             cmd = ["cargo", "kani", "-p", crate, "-Z", "function-contracts", "-Z", "stubbing",
                    "--output-format", "terse", "-j", str(1 if playback else (jobs or min(16, max(1, len(hs))))),
